@@ -176,7 +176,7 @@ def mk_pair_item(gx, gy, rx, ry, seed, order, exact, owner, rng=None, iso=None, 
 
 
 def run_models(ctx, quick, mine):
-    runs = [(dict(MaxV=4, WithUb=False), ["LbSound", "OracleAgrees", "LbEqualsFindLb", "IsoZero", "PointLemma"]),
+    runs = [(dict(MaxV=4, WithUb=False), ["LbSound", "OracleAgrees", "LbEqualsFindLb", "IsoZero", "PointLemma", "AnyCurvatureSound"]),
             (dict(MaxV=4, WithUb=True), ["LbSound", "UbIsRealMap", "UbSound"])]
     for cst, inv in runs:
         r = tlc.run_tlc("MGH", workers=16, constants=cst, invariants=inv, heap="8g", timeout=7200)
